@@ -51,6 +51,9 @@ structure TyInfo where
   /-- `Named.Obj().Pkg()`: `none` is the nil package of universe types such as `error` -/
   pkgPath : Option String := none
   pkgName : String := ""
+  /-- the object the setup package's scope holds under this type's name is this very type
+  (`scope.Lookup(typ.Obj().Name()) == typ.Obj()`) -/
+  inScope : Bool := false
   /-- element of a pointer or slice -/
   elem : TyId := 0
   /-- `Underlying()` is a `*types.Struct` -/
@@ -73,6 +76,8 @@ structure TyInfo where
 structure ImportSpec where
   path : String
   alias : String := ""
+  /-- the name the imported package declares (`""` when the loader does not know it) -/
+  pkgName : String := ""
   deriving Repr, DecidableEq, Inhabited
 
 structure Env where
@@ -85,8 +90,6 @@ structure Env where
   identical : TyId → TyId → Bool := fun a b => a == b
   /-- `types.LookupFieldOrMethod(t, true, PkgOf(t), name)` -/
   lookup : TyId → String → Lookup
-  /-- `pkg.Types.Scope().Lookup(name) != nil` -/
-  scopeHas : String → Bool
   /-- `pkg.PkgPath` -/
   pkgPath : String
   /-- `ImportNames` of the setup file: the Go map as an association list without duplicate keys -/
@@ -224,6 +227,12 @@ def newImportNames (specs : List ImportSpec) : List (String × String) :=
   noNames.foldl (fun m p =>
     let name := lastPathElem p
     if m.any (fun e => e.2 == name && e.1 != p) then m else mapSet m p name) m
+
+/-- `importNamesOf` (parser): an import without an explicit name is referred to by the name of the
+imported package, which need not be the last element of its path -/
+def importNamesOf (specs : List ImportSpec) : List (String × String) :=
+  specs.foldl (fun m s => if s.alias == "" && s.pkgName != "" then mapSet m s.path s.pkgName else m)
+    (newImportNames specs)
 
 /-- `ImportNames.LookupPath`: Go iterates the map in random order; the model takes the first
 entry in list order and `lookupPathAmbiguous` says when the choice matters. -/
